@@ -205,8 +205,11 @@ def closed_forms(ctx: Ctx) -> Dict[str, int]:
     for p, (_, mcls) in classes().items():
         for call in ([True, False] if p in PUT_OFFERED else [True]):
             ad = grid.derivatives(p, call)
+            # all modules of this product are built FIRST and stay alive together (a book of several strikes): each one's Greeks
+            # are the derivatives of ITS OWN price, whatever was constructed after it
+            book = [mcls(call=call, strike=K) for K in grid.ax["strike"]]
             for ki, K in enumerate(grid.ax["strike"]):
-                m = mcls(call=call, strike=K)
+                m = book[ki]
                 sl = (slice(None), slice(None), slice(None), ki, slice(None))
                 kw = {"log_moneyness": grid.lm[sl], "time_to_maturity": grid.t[sl], "volatility": grid.v[sl]}
                 if p in PATH_DEPENDENT:
